@@ -387,7 +387,9 @@ class PrettyFormatter(BaseFormatter):
             registry.separate_format_defaults,
         )
 
-        unc_spec = meas_spec
+        # "P" is also understood by uncertainties (pretty-print); "~" is pint's
+        # own flag for abbreviated units and means nothing to it.
+        unc_spec = meas_spec.replace("~", "")
         joint_fstring = "{} {}"
 
         return join_unc(
